@@ -33,13 +33,17 @@ func init() {
 }
 
 func rid(n int) uuid.UUID {
-	// spread over the 16 shards: low half = n, high half = n*7 (UuidMod adds the halves)
+	// low half = n (so the id is readable), high half = a mix of n, so that ids spread over
+	// partitions and shards for every modulus (UuidMod adds the two halves)
 	var u uuid.UUID
 	u[0] = byte(n)
 	u[1] = byte(n >> 8)
-	u[8] = byte(n * 7)
-	u[15] = byte(n >> 4)
+	m := (uint64(n) + 1) * 0x9E3779B97F4A7C15
+	for i := 0; i < 6; i++ {
+		u[8+i] = byte(m >> (8 * uint(i+1)))
+	}
 	u[14] = 0xA5
+	u[15] = byte(n >> 4)
 	return u
 }
 
